@@ -181,6 +181,7 @@ def wl_c02(tier, seed, shard, nshards):
     yield from take(({k: v for k, v in it.items() if k not in ('hole', 'pos')} for it in G.twin_programs()), shard, nshards)
     yield from take(backref_programs(), shard, nshards)
     yield from take(many_groups_programs(), shard, nshards)
+    yield from take(G.meta_operand_programs(), shard, nshards)
     yield from take(G.w3_depth1(), shard, nshards)
     r = shard_rnd(seed, shard, 1)
     if tier == 'quick':
@@ -197,6 +198,7 @@ def wl_c03(tier, seed, shard, nshards):
     yield from take(many_groups_programs(), shard, nshards)
     yield from take(G.w_invalid(), shard, nshards)
     yield from take(G.w_stress(), shard, nshards)
+    yield from take(G.meta_operand_programs(), shard, nshards * (3 if tier == 'quick' else 1))
     yield from take(G.w3_depth1(), shard, nshards)
     r = shard_rnd(seed, shard, 2)
     k = 1 if tier == 'quick' else 10
